@@ -64,6 +64,7 @@ func cmdShard(args []string) {
 	maxBatch := fs.Int("maxbatch", 0, "largest random batch (0 = 5)")
 	nids := fs.Int("nids", 0, "size of the id universe (0 = configuration default)")
 	repeatUpd := fs.Bool("repeat-upd", false, "update batches may name a point twice")
+	slowGet := fs.Int("slowget-us", 0, "every storage read inside a write transaction takes this many microseconds")
 	schedFile := fs.String("behaviours", "", "sched mode: file with one ShardCache.tla behaviour per line")
 	bfreq := fs.Int("backup-freq", 1, "backup mode: minimum age in seconds of the newest backup before another one is taken")
 	bcount := fs.Int("backup-count", 2, "backup mode: number of backups kept")
@@ -168,6 +169,7 @@ func cmdShard(args []string) {
 	}
 	for h := 0; h < *hist; h++ {
 		r := sd.NewRunner(cfg, *seed*1000+int64(h), tw, *dir)
+		r.SlowGet = time.Duration(*slowGet) * time.Microsecond
 		if err := r.RunHistory(h, opts); err != nil {
 			fmt.Fprintln(os.Stderr, "driver error:", err)
 			os.Exit(2)
